@@ -1,6 +1,6 @@
 ----------------------------- MODULE TraceEquiv -----------------------------
 (* Judge of EquivalencyComputer runs (C19): classes sound w.r.t. CO(af) computed by TLC; mappings total and inverse *)
-EXTENDS EquivAlgo, Json, IOUtils, SequencesExt
+EXTENDS EquivAlgo, Meta, Json, IOUtils, SequencesExt
 Rec == ndJsonDeserialize(IOEnv.TRACE)
 VARIABLE l
 Report(name, ok) == IF ok THEN TRUE ELSE PrintT(<<"T1", l, name>>)
@@ -12,8 +12,11 @@ Judge(e) ==
   IN
   /\ Report("C19:returns", ~e.panic)
   /\ ~e.panic =>
-       /\ Report("C19:merged_arguments_indistinguishable", SoundClasses(af, classes))
-       /\ (af.args = 1..Cardinality(af.args)) => Report("T2:classes_equal_EquivAlgo", Classes(af) = classes)   \* translation validation, not a verdict
+       /\ Report("C19:merged_arguments_indistinguishable",
+                 IF e.core_n > 0
+                 THEN LET co == LiftedFam(af, 1..e.core_n, "CO") IN \A C \in classes : \A a \in C : \A b \in C : \A E \in co : (a \in E) <=> (b \in E)
+                 ELSE SoundClasses(af, classes))
+       /\ (af.args = 1..Cardinality(af.args) /\ e.core_n = 0) => Report("T2:classes_equal_EquivAlgo", Classes(af) = classes)   \* translation validation, not a verdict
        /\ Report("C19:classes_partition_arguments", Partition(af, classes) /\ Len(e.classes) = Cardinality(classes) /\ e.rn = Len(e.classes))
        /\ Report("C19:mappings_total_and_inverse",
                  /\ {p[1] : p \in toRed} = af.args /\ Len(e.to_reduced) = Cardinality(af.args)
